@@ -59,6 +59,8 @@ type Env struct {
 	MA      map[string]interface{}
 	O, P    *Obj
 	X, Y    interface{}
+	H       int     // boundary values of int
+	HF      float64 // boundary values of float64
 	I8      int8
 	U8      uint8
 	I64     int64
@@ -120,8 +122,15 @@ func (e Env) OpAnyEq(a, b interface{}) bool {
 	e.L.Add("OpAnyEq(%s,%s)", Norm(a), Norm(b))
 	return Norm(a) != Norm(b)
 }
-func (e Env) Plus(a, b int) int              { e.L.Add("Plus(%d,%d)", a, b); return a + b + 7 }
-func (e Env) Get(k int) int                  { e.L.Add("Get(%d)", k); return k * 3 }
+func (e Env) Plus(a, b int) int { e.L.Add("Plus(%d,%d)", a, b); return a + b + 7 }
+func (e Env) Get(k int) int     { e.L.Add("Get(%d)", k); return k * 3 }
+func (e Env) OpSubBoom(a, b int) int {
+	e.L.Add("OpSubBoom(%d,%d)", a, b)
+	if b == 0 {
+		panic("boom")
+	}
+	return a - b
+}
 func (e Env) OpIn(a, b string) bool          { e.L.Add("OpIn(%q,%q)", a, b); return strings.Contains(b, a) }
 func (e Env) OpAnd(a, b int) bool            { e.L.Add("OpAnd(%d,%d)", a, b); return a != 0 && b != 0 }
 func (e Env) OpStr(a, b fmt.Stringer) string { e.L.Add("OpStr"); return a.String() + "~" + b.String() }
@@ -168,10 +177,12 @@ var Domains = map[string]Domain{
 	"P":   {c((*Obj)(nil)), leaf(5, "p")},
 	"X":   {c(interface{}(1)), c(interface{}("a")), c(interface{}(nil)), c(interface{}(2.5))},
 	"Y":   {c(interface{}(2)), c(interface{}(1.0))},
+	"H":   {c(1 << 32), c(math.MaxInt64), c(math.MinInt64), c(1000)},
+	"HF":  {c(float64(1 << 53)), c(-float64(1<<53) - 2), c(0.1)},
 	"I8":  {c(int8(1)), c(int8(-128)), c(int8(0))},
 	"U8":  {c(uint8(1)), c(uint8(200)), c(uint8(0))},
 	"I64": {c(int64(1)), c(int64(-3)), c(int64(0))},
-	"F32": {c(float32(1.5)), c(float32(0))},
+	"F32": {c(float32(1.5)), c(float32(0)), c(float32(16777216))},
 	"U":   {c(uint(1)), c(uint(0))},
 	"MI":  {c(MyInt(1)), c(MyInt(0))},
 	"MS":  {c(MyStr("a")), c(MyStr(""))},
@@ -258,6 +269,10 @@ func Make(v Val) *Env {
 			e.X = val
 		case "Y":
 			e.Y = val
+		case "H":
+			e.H = val.(int)
+		case "HF":
+			e.HF = val.(float64)
 		case "I8":
 			e.I8 = val.(int8)
 		case "U8":
